@@ -27,6 +27,9 @@ def compare(i, m):
         return False
     if iv["alone"] != mv["alone"]:
         return False
+    # the hypothesis of the theorems: a schema the real validator accepts is closed
+    if iv["with"] != "-" and mv["closed"] != "t":
+        return False
     # every standalone rule is a conjunct of validation with a schema, evaluated on the typed document
     if iv["with"] == "t" and mv["typed"] != "t":
         return False
